@@ -577,7 +577,8 @@ const fn mul(a: u64, b: u64) -> u64 {
 #[inline(always)]
 #[allow(clippy::many_single_char_names)]
 fn inv(x: u64) -> u64 {
-    if x == 0 {
+    // x is in [0, 2M), so zero is represented by both 0 and M
+    if x == 0 || x == M {
         return 0;
     };
 
